@@ -447,3 +447,37 @@ func InvalidKind(err error) string {
 	}
 	return ""
 }
+
+// TwinFingerprint computes, independently of cert.CalculateAlternateFingerprint / Certificate.Copy, the
+// fingerprint of the certificate that carries the other S form of c's P-256 signature: "" for other curves,
+// an error when the signature cannot be swapped. v1: SHA-256 of the re-marshalled certificate with the swapped
+// signature (built from the accessor values); v2: SHA-256 of rawDetails ‖ curve ‖ publicKey ‖ swapped
+// signature, rawDetails cut out of c.Marshal().
+func TwinFingerprint(c cert.Certificate) (string, error) {
+	if c.Curve() != cert.Curve_P256 {
+		return "", nil
+	}
+	sw, err := SwapSig(c.Signature())
+	if err != nil {
+		return "", err
+	}
+	switch c.Version() {
+	case cert.Version1:
+		sum := sha256.Sum256(CraftV1(FieldsOf(c), nil, sw))
+		return hex.EncodeToString(sum[:]), nil
+	case cert.Version2:
+		raw, err := c.Marshal()
+		if err != nil {
+			return "", err
+		}
+		in := cryptobyte.String(raw)
+		var seq, rd cryptobyte.String
+		if !in.ReadASN1(&seq, asn1.SEQUENCE) || !seq.ReadASN1Element(&rd, cert.TagCertDetails) {
+			return "", errors.New("harness: cannot cut raw details")
+		}
+		b := append(append(append(append([]byte{}, rd...), byte(c.Curve())), c.PublicKey()...), sw...)
+		sum := sha256.Sum256(b)
+		return hex.EncodeToString(sum[:]), nil
+	}
+	return "", errors.New("harness: unknown version")
+}
